@@ -1,4 +1,4 @@
 CONSTANTS Tier = "q"  Emit = FALSE
 SPECIFICATION Spec
-INVARIANT TypeOK NoFail Progress RoundTrip WidthLemma TxStd
+INVARIANT TypeOK NoFail RoundTrip WidthLemma TxStd
 CHECK_DEADLOCK FALSE
